@@ -2,7 +2,7 @@
 # One check against every patch of a corpus, each patch in its own scratch worktree (-repo), 8 at a time.
 # Usage: prop_matrix.sh <dir with <name>/patch.diff> <property> [name filter regex]   Output: one line per patch that does not exit 0.
 dir=$1; prop=$2; filter=${3:-.}
-bin=/verif/bin/vorecheck; [ -x /verif/bin/vorecheck.dev ] && bin=/verif/bin/vorecheck.dev
+bin=/verif/bin/vorecheck; [ -x /verif/bin/vorecheck.dev ] && bin=/verif/bin/vorecheck.dev; [ -n "$VBIN" ] && bin=$VBIN
 one() {
   sd=$1; dir=$2; bin=$3; p=$4
   wt=$(mktemp -d /tmp/pmwt.XXXX)
